@@ -70,9 +70,9 @@ def poison(kind, k):
     """Allocate and free arrays of many sizes filled with garbage: later np.empty calls of those sizes see it."""
     val = [np.nan, 1e300, -7.25, 1e-300][kind % 4]
     keep = []
-    for size in list(range(1, 200, 3)) + [256, 300, 512, 600, 1024, 2048, 4096]:
-        for _ in range(1 + k % 3):
-            keep.append(np.full(size + (k % 5), val))
+    for size in list(range(1, 260)) + [300, 384, 512, 600, 768, 1024, 2048, 4096]:
+        for _ in range(1 + k % 2):
+            keep.append(np.full(size, val))
     del keep
 
 
@@ -185,6 +185,7 @@ def run_history(steps, ctx):
     epoch = 0
     calls = []
     nontrivial = False
+    pending_poison = [None]
 
     def do_call(op, preset, si, spelling, bseed=None, variant=None):
         nonlocal nontrivial
@@ -205,6 +206,8 @@ def run_history(steps, ctx):
             else:
                 c.kwargs[c.seed_kw] = s
             key = key + (s, "gen" if gen_obj is not None else "int")
+        if pending_poison[0] is not None:
+            poison(*pending_poison[0])        # right before the call: building the arguments recycles the freed blocks otherwise
         g0 = global_state_bytes()
         try:
             res = c.run()
@@ -231,7 +234,7 @@ def run_history(steps, ctx):
         elif kind == "consume_global":
             np.random.rand(stp[1]); np.random.shuffle(np.arange(5)); epoch += 1
         elif kind == "poison":
-            poison(stp[1], stp[2]); epoch += 1
+            poison(stp[1], stp[2]); pending_poison[0] = (stp[1], stp[2]); epoch += 1
         elif kind == "call":
             calls.append(stp[1:])
             do_call(*stp[1:]); epoch += 1
